@@ -158,6 +158,18 @@ Proof.
   apply andb_true_iff in W. destruct W as [I K]. auto.
 Qed.
 
+(* C10's parameter rules of the code under test (fdiff_m = table rules ++ regenerated old-side members of incompatible_kind):
+   the old-side members only fire on a parameter whose kind changed *)
+Lemma collide_nil ck old new : (forall op, In op old -> find (pname op) new = Some op) -> collide ck old new = [].
+Proof.
+  intros H. unfold collide. apply flat_map_nil. intros op Hin. unfold collide_one. rewrite (H op Hin), kind_eqb_refl. reflexivity.
+Qed.
+Lemma fdiff_m_self s : nodup_names s = true -> fdiff_m s s = [].
+Proof.
+  intros N. unfold fdiff_m, fdiff_g. rewrite (identical_silent s N). simpl. apply collide_nil.
+  destruct (nodup_find_index s N) as [F _]. exact F.
+Qed.
+
 Lemma local_head_self n j : sig_ok n = true -> local_head n n j = [].
 Proof.
   intros S. unfold local_head.
@@ -165,7 +177,7 @@ Proof.
   rewrite okind_eqb_refl. simpl.
   destruct (nbody n) as [ex im ms|im bs inh ms|sg ret|v|t] eqn:B; try reflexivity.
   - rewrite natlist_eqb_refl. reflexivity.
-  - unfold sig_ok in S. rewrite B in S. rewrite (identical_silent sg S). simpl.
+  - unfold sig_ok in S. rewrite B in S. rewrite (fdiff_m_self sg S). simpl.
     destruct ret; reflexivity.
   - rewrite odef_eqb_refl. reflexivity.
 Qed.
@@ -201,7 +213,7 @@ Definition ext_node (oi nj : node) : Prop :=
   | BAlias _, _ | _, BAlias _ => False
   | BModule _ _ _, BModule _ _ _ => True
   | BClass _ ob _ _, BClass _ nb _ _ => natlist_eqb nb ob = true \/ List.length ob <= List.length nb
-  | BFunction os oret, BFunction ns nret => fdiff os ns = [] /\ returns_compatible oret nret = true
+  | BFunction os oret, BFunction ns nret => fdiff_m os ns = [] /\ returns_compatible oret nret = true
   | BAttribute ov, BAttribute nv => ov = nv
   | _, _ => False
   end.
@@ -262,7 +274,7 @@ Proof.
   - unfold ext_node. destruct (nbody oi) as [ex im ms|im bs inh ms|sg ret|v|t] eqn:B.
     + exact I.
     + left. apply natlist_eqb_refl.
-    + unfold sig_ok in S. rewrite B in S. split; [apply identical_silent; exact S|destruct ret; reflexivity].
+    + unfold sig_ok in S. rewrite B in S. split; [apply fdiff_m_self; exact S|destruct ret; reflexivity].
     + reflexivity.
     + intros a b E1 E2. congruence.
   - intros n m mo Hin _ _. apply nodup_keys_lookup; assumption.
@@ -677,7 +689,7 @@ Qed.
 
 Theorem parameter_breakage_reported c j oi nj os oret ns nret p :
   Visit c j -> get go c = Some oi -> get gn j = Some nj ->
-  nbody oi = BFunction os oret -> nbody nj = BFunction ns nret -> In p (fdiff os ns) ->
+  nbody oi = BFunction os oret -> nbody nj = BFunction ns nret -> In p (fdiff_m os ns) ->
   In (BParam j p) (breakages go gn l).
 Proof.
   intros Hv Hi Hj Bo Bn Hp. apply (head_complete c j); [exact Hv|].
@@ -722,10 +734,12 @@ Qed.
 
 Theorem is_public_matches_doc p m : is_public p m = is_public_doc p m.
 Proof.
-  unfold is_public, is_public_doc, listed_in_all, defines_all.
+  (* is_public is the ladder regenerated from mixins.py (Gen/C11_ladder.v) applied to the facts of (p, m): this proof is
+     what fails when the code's ladder stops being the documented one *)
+  unfold is_public, is_public_gen, is_imported_gen, facts_of, is_public_doc, listed_in_all, defines_all, is_private, is_module. simpl.
   destruct (npublic m); [reflexivity|].
-  destruct (negb (is_alias m) && is_module m && negb (starts_with "_" (nname m))); [reflexivity|].
-  destruct (nbody p) as [ex im ms|im bs inh ms|sg ret|v|t]; try reflexivity.
+  destruct (negb (is_alias m) && match nbody m with BModule _ _ _ => true | _ => false end && negb (starts_with "_" (nname m))); [reflexivity|].
+  destruct (nbody p) as [ex im ms|im bs inh ms|sg ret|v|t]; simpl; try reflexivity.
   destruct ex as [es|]; [|reflexivity]. destruct (smem (nname m) es); reflexivity.
 Qed.
 (* the former witness of finding C11-F3 (repaired): under an empty __all__ an unlisted function is private *)
@@ -740,7 +754,7 @@ Example names_ok :
 Proof. split; reflexivity. Qed.
 
 (* ------------------------------------------------------------------------------------------------------------ *)
-(* Part B': the catalogue edit "add optional keyword-only parameters" leaves C10's fdiff empty *)
+(* Part B': the catalogue edit "add optional keyword-only parameters" leaves C10's fdiff_m (the code under test) empty *)
 Lemma per_old_same new i p :
   find (pname p) new = Some p -> (is_pos (pkind p) = true -> index_of (pname p) new = i) -> per_old new i p = [].
 Proof.
@@ -770,6 +784,16 @@ Proof.
   destruct (find (pname np) old) eqn:E; [reflexivity|]. rewrite (Hn np Hin E). reflexivity.
 Qed.
 
+Theorem fdiff_m_nil_general old new :
+  (forall oi op, nth_error old oi = Some op ->
+     find (pname op) new = Some op /\ (is_pos (pkind op) = true -> index_of (pname op) new = oi)) ->
+  (forall np, In np new -> find (pname np) old = None -> required np = false) ->
+  fdiff_m old new = [].
+Proof.
+  intros Ho Hn. unfold fdiff_m, fdiff_g. rewrite (fdiff_nil_general old new Ho Hn). simpl. apply collide_nil.
+  intros op Hin. apply In_nth_error in Hin. destruct Hin as [oi Hoi]. exact (proj1 (Ho oi op Hoi)).
+Qed.
+
 Lemma find_app n a b : find n (a ++ b) = match find n a with Some p => Some p | None => find n b end.
 Proof. induction a as [|q a IH]; simpl; [reflexivity|]. destruct (Nat.eqb (pname q) n); [reflexivity|exact IH]. Qed.
 Lemma index_of_app_found n a b p : find n a = Some p -> index_of n (a ++ b) = index_of n a.
@@ -782,14 +806,14 @@ Theorem fdiff_add_optional_kwonly s1 extra s2 :
   nodup_names (s1 ++ s2) = true ->
   (forall p, In p s2 -> is_pos (pkind p) = false) ->
   (forall p, In p extra -> pkind p = KO /\ required p = false /\ find (pname p) (s1 ++ s2) = None) ->
-  fdiff (s1 ++ s2) (s1 ++ extra ++ s2) = [].
+  fdiff_m (s1 ++ s2) (s1 ++ extra ++ s2) = [].
 Proof.
   intros Nd Hs2 Hex. destruct (nodup_find_index (s1 ++ s2) Nd) as [F I].
   assert (Fresh : forall n, (exists q, In q (s1 ++ s2) /\ pname q = n) -> find n extra = None).
   { intros n [q [Hq En]]. destruct (find n extra) as [e|] eqn:E; [|reflexivity]. exfalso.
     destruct (find_some_in n extra e E) as [He Ee]. destruct (Hex e He) as [_ [_ Hnone]].
     apply (find_none_notin (pname e) (s1 ++ s2) Hnone q Hq). congruence. }
-  apply fdiff_nil_general.
+  apply fdiff_m_nil_general.
   - intros oi op Hn. assert (Hin : In op (s1 ++ s2)) by (eapply nth_error_In; eauto).
     pose proof (F op Hin) as Fo. pose proof (I oi op Hn) as Io.
     rewrite find_app in Fo. rewrite find_app.
@@ -808,7 +832,7 @@ Qed.
 
 (* non-vacuity: def f(a, *, k): ... ; **kw  ->  def f(a, *, k, n=1, **kw) satisfies the hypotheses *)
 Example add_kwonly_example :
-  fdiff ([mk 0 PK None; mk 1 KO None] ++ [mk 2 VK (Some 0)]) ([mk 0 PK None; mk 1 KO None] ++ [mk 3 KO (Some 1)] ++ [mk 2 VK (Some 0)]) = [].
+  fdiff_m ([mk 0 PK None; mk 1 KO None] ++ [mk 2 VK (Some 0)]) ([mk 0 PK None; mk 1 KO None] ++ [mk 3 KO (Some 1)] ++ [mk 2 VK (Some 0)]) = [].
 Proof.
   apply fdiff_add_optional_kwonly.
   - reflexivity.
